@@ -294,6 +294,7 @@ func init() {
 		dec:   true,
 		canon: func(v *delay.Delay) string { return canonDelay(*v) },
 		rt:    func(v *delay.Delay) bool { return inRange(v.Time) },
+		rtNote: "year-outside-0000-9999",
 	})
 	register(spec[stanza.Delay]{name: "stanza.Delay",
 		gen: func(g *gen) stanza.Delay {
@@ -311,6 +312,7 @@ func init() {
 			return (&kv{}).j("from", v.From).t("stamp", v.Stamp).s("reason", v.Reason).String()
 		},
 		rt: func(v *stanza.Delay) bool { return inRange(v.Stamp) },
+		rtNote: "year-outside-0000-9999",
 	})
 	register(spec[xtime.Time]{name: "xtime.Time",
 		gen: func(g *gen) xtime.Time {
@@ -328,6 +330,7 @@ func init() {
 			return (&kv{}).t("utc", v.Time).i("tzo-min", int64(offsetMinutes(v.Time))).String()
 		},
 		rt: func(v *xtime.Time) bool { return inRange(v.Time) },
+		rtNote: "year-outside-0000-9999",
 	})
 	// the attribute form of xtime.Time, through a carrier struct
 	type stampAttr struct {
